@@ -19,6 +19,7 @@ EXPLANATION = (
     'adds one reference per spawn plus itself), for_each block tasks reserve once per spawned/executed iteration task, the '
     'feeder creates and spawns exactly one task per added item.  Exactly-once coverage and disjointness for all '
     '(begin,end,grain), chunk-size bounds and the ring arithmetic of the range pool are NOT decided.')
+EXPLANATION += ' Added after the seeded-change rounds: ' + 'D2 also: multi-dimensional ranges compare size/grainsize ratios by cross multiplication with mirrored operands; D5: every public overload of parallel_for / parallel_for_each (all are instantiated by the drivers) dispatches to the same task class as its siblings and passes every argument on.'
 ASSUMPTIONS = ['ranges are recognised as classes with an is_divisible() member and a constructor taking split/proportional_split',
                'only instantiations written in drivers/algorithms.cpp are analysed']
 ND = ['exactly-once coverage and disjointness for all (begin,end,grain)', 'chunk-size bounds', 'proportional-split rounding',
